@@ -142,6 +142,7 @@ PROPS = {
         "level": "exploration",
         "units": [
             R("h26", "c06", "TestC06_Model", (16000, 8, 1500), (4000000, 16, 10000)),
+            R("h23", "c06h", "TestC06_HTTPSource", (600, 4, 600), (40000, 16, 10000)),
         ],
     },
     "C07": {
